@@ -1,0 +1,39 @@
+//go:build verif
+
+package keyper
+
+import (
+	"context"
+
+	"github.com/jackc/pgx/v4/pgxpool"
+
+	"github.com/shutter-network/rolling-shutter/rolling-shutter/keyper/kprconfig"
+	"github.com/shutter-network/rolling-shutter/rolling-shutter/p2p"
+)
+
+// VerifEonPubKeyHandler gives access to the eon public key publication loop body.
+type VerifEonPubKeyHandler struct {
+	h *eonPubKeyHandler
+}
+
+// VerifNewEonPubKeyHandler builds the handler the way newEonPubKeyHandler does, from its parts.
+func VerifNewEonPubKeyHandler(
+	dbpool *pgxpool.Pool,
+	config *kprconfig.Config,
+	messaging p2p.Messaging,
+	handler EonPublicKeyHandlerFunc,
+	broadcast bool,
+) *VerifEonPubKeyHandler {
+	return &VerifEonPubKeyHandler{h: &eonPubKeyHandler{
+		dbpool:             dbpool,
+		config:             config,
+		messaging:          messaging,
+		eonPubkeyHandler:   handler,
+		broadcastEonPubKey: broadcast,
+	}}
+}
+
+// QueryAndHandle runs one polling tick.
+func (v *VerifEonPubKeyHandler) QueryAndHandle(ctx context.Context) error {
+	return v.h.queryAndHandleNewEonPubKeys(ctx)
+}
